@@ -1,4 +1,4 @@
-CONSTANTS GAPSIZES = {1, 2}  GAPS = {0, 2, 3}  MAXE = 2  MAXW = 0  ITERS = 2  KEYS = {1, 2}
+CONSTANTS GAPSIZES = {1, 2}  GAPS = {0, 3}  MAXE = 2  MAXW = 0  ITERS = 2  KEYS = {1, 2}
 SPECIFICATION Spec
 INVARIANTS C14_Session
 CHECK_DEADLOCK FALSE
